@@ -18,10 +18,14 @@ spec format: {"items": [{"name": "delta", "file": "stable_baselines3/common/buff
                           "class": "RolloutBuffer", "func": "compute_returns_and_advantage",
                           "target": "delta", "occurrence": 0, "leaves": ["rewards_step", …]}]}
 `target` is the assigned name (or "return" for the returned expression, "attr:NAME" for `self.NAME = …`,
-"sub:NAME" for `NAME[…] = …`, or "if" for the test of the `occurrence`-th `if` statement of the function).
+"sub:NAME" for `NAME[…] = …`, "if" for the test of the `occurrence`-th `if` statement of the function, or
+"find:TEXT" for the `occurrence`-th outermost arithmetic/comparison expression whose source contains TEXT, wherever it
+occurs: inside a subscript, a call argument, a tuple …).
 Optional per item: "type" (concrete Lean type of all leaves, e.g. "Nat"/"Int"; default: a type parameter α with
-"classes"), "result" (Lean result type, e.g. "Bool" for a condition), "inline" {leaf: lean term}, "leaves" (the
-expected leaf names; a different set means the code was restructured -> status unavailable).
+"classes"), "result" (Lean result type, e.g. "Bool" for a condition), "inline" {leaf: lean term}, "calls" {python call text: lean function} (e.g. {"np.sqrt": "HasSqrt.sqrt"}),
+"leaves" (the expected leaf names; a different set means the code was restructured -> status unavailable; with
+"leaves_mode": "subset" only a NEW leaf means restructured, a leaf that disappeared is left to the tie lemma: the
+def keeps all expected leaves as parameters). Leaves that are Lean keywords are written «kw».
 Supported expression forms: + - * / // % **, unary -, numeric constants, names/attributes/subscripts (leaves),
 max/min/clip/float/int, comparisons (== != < <= > >=), and/or/not, conditional expressions.
 """
@@ -56,13 +60,25 @@ def sanitize(src: str) -> str:
     return s
 
 
+LEAN_KEYWORDS = {"end", "from", "at", "in", "do", "then", "else", "if", "fun", "let", "have", "show", "by", "with", "match",
+                 "where", "open", "at", "then", "def", "theorem", "instance", "class", "structure", "namespace", "section",
+                 "variable", "universe", "import", "export", "local", "prefix", "infix", "notation", "macro", "syntax",
+                 "deriving", "extends", "for", "unless", "return", "mut", "try", "catch", "finally", "using", "calc", "Type", "Prop", "Sort"}
+
+
+def quote(name: str) -> str:
+    """Lean identifier for a leaf: keywords are written «kw»"""
+    return f"«{name}»" if name in LEAN_KEYWORDS else name
+
+
 class Tr(ast.NodeVisitor):
     """Python arithmetic expression -> Lean term over a scalar type; leaves become parameters."""
 
-    def __init__(self, src: str, inline=None):
+    def __init__(self, src: str, inline=None, calls=None):
         self.src = src
         self.leaves = []
         self.inline = inline or {}
+        self.calls = calls or {}
 
     def leaf(self, node):
         name = sanitize(ast.get_source_segment(self.src, node))
@@ -70,7 +86,7 @@ class Tr(ast.NodeVisitor):
             return "(" + self.inline[name] + ")"
         if name not in self.leaves:
             self.leaves.append(name)
-        return name
+        return quote(name)
 
     def tr(self, n) -> str:
         if isinstance(n, ast.BinOp):
@@ -93,6 +109,9 @@ class Tr(ast.NodeVisitor):
         if isinstance(n, ast.Call):
             fn = ast.get_source_segment(self.src, n.func)
             args = [self.tr(a) for a in n.args]
+            if fn in self.calls:
+                # per-item mapping of a library call to a Lean function, e.g. {"np.sqrt": "HasSqrt.sqrt"}
+                return "(" + " ".join([self.calls[fn]] + args) + ")" if args else self.calls[fn]
             if fn in ("max", "min", "np.maximum", "np.minimum") and len(args) == 2:
                 return f"({'max' if 'max' in fn else 'min'} {args[0]} {args[1]})"
             if fn in ("float", "int", "np.float32", "np.array", "np.asarray") and len(args) == 1:
@@ -137,6 +156,20 @@ def find_func(tree, cls, func):
 
 def find_expr(fn, target, occurrence):
     hits = []
+    if target.startswith("find:"):
+        # outermost arithmetic / comparison expressions whose source text contains the given substring
+        needle = re.sub(r"\s+", "", target[5:])
+        kinds = (ast.BinOp, ast.Compare, ast.BoolOp, ast.IfExp, ast.UnaryOp)
+        cand = [n for n in ast.walk(fn) if isinstance(n, kinds) and needle in re.sub(r"\s+", "", ast.unparse(n))]
+        inner = set()
+        for n in cand:
+            for m in ast.walk(n):
+                if m is not n and isinstance(m, kinds):
+                    inner.add(id(m))
+        hits = sorted((n for n in cand if id(n) not in inner), key=lambda v: (v.lineno, v.col_offset))
+        if occurrence >= len(hits):
+            raise Unsupported(f"no expression containing '{target[5:]}' (#{occurrence})")
+        return hits[occurrence]
     for n in ast.walk(fn):
         if target == "if" and isinstance(n, ast.If):
             hits.append(n.test)
@@ -164,12 +197,19 @@ def extract_item(item):
     tree = ast.parse(src)
     fn = find_func(tree, item.get("class"), item["func"])
     expr = find_expr(fn, item["target"], item.get("occurrence", 0))
-    tr = Tr(src, item.get("inline"))
+    tr = Tr(src, item.get("inline"), item.get("calls"))
     term = tr.tr(expr)
     leaves = sorted(tr.leaves)
-    if "leaves" in item and sorted(item["leaves"]) != leaves:
-        raise Unsupported(f"{item['name']}: leaves {leaves} differ from expected {sorted(item['leaves'])}")
-    params = " ".join(leaves)
+    if "leaves" in item:
+        exp = sorted(item["leaves"])
+        if item.get("leaves_mode") == "subset":
+            # a leaf that DISAPPEARED is a formula change (-> tie lemma decides), a NEW leaf is a restructuring
+            if not set(leaves) <= set(exp):
+                raise Unsupported(f"{item['name']}: leaves {leaves} not within expected {exp}")
+            leaves = exp
+        elif exp != leaves:
+            raise Unsupported(f"{item['name']}: leaves {leaves} differ from expected {exp}")
+    params = " ".join(quote(l) for l in leaves)
     result = item.get("result")
     if item.get("type"):
         # concrete scalar type (e.g. Nat, Int): no type parameter, no classes
